@@ -269,6 +269,11 @@ func genKeyid(g *hx.Gen, out *hx.Out) {
 			emit(render(mm))
 		}
 	}
+	for _, fl := range []int{0, 1, 8} {
+		for _, t := range nearTexts(members(genKid(g, fl, 1, 0, 1))) {
+			emit(t)
+		}
+	}
 	// every member duplicated, exactly and under a case-variant name, before and after the original,
 	// with another value of the same JSON kind (which of the two wins must not depend on the check)
 	otherOfKind := func(raw string) []string {
@@ -296,6 +301,36 @@ func genKeyid(g *hx.Gen, out *hx.Out) {
 			}
 		}
 	}
+}
+
+// nearTexts: systematic near-misses of one complete, consistent KeyID text that a decoder built
+// differently could take for complete — a required member absent while its name occurs elsewhere
+// (as the value of a string member, inside the principals array, as a member of a nested object),
+// and the complete object followed by further data (not one JSON value any more).
+func nearTexts(base []member) []string {
+	var out []string
+	for i := range base {
+		del := append(append([]member{}, base[:i]...), base[i+1:]...)
+		name := strconv.Quote(base[i].key)
+		for j := range del {
+			if strings.HasPrefix(del[j].raw, `"`) {
+				mm := append([]member{}, del...)
+				mm[j].raw = name
+				out = append(out, render(mm))
+			}
+			if strings.HasPrefix(del[j].raw, "[") {
+				mm := append([]member{}, del...)
+				mm[j].raw = "[" + name + "]"
+				out = append(out, render(mm))
+			}
+		}
+		out = append(out, render(append(append([]member{}, del...), member{"extra", "{" + name + ":" + base[i].raw + "}"})))
+	}
+	whole := render(base)
+	for _, tail := range []string{"x", "]", "}", ",", `,"isNonce":true}`, whole, "null", " 1", "\n{}", "\x00", `"ver"`} {
+		out = append(out, whole+tail)
+	}
+	return out
 }
 
 // mutate2 damages the text itself (truncation, byte flip, trailing data).
@@ -398,5 +433,10 @@ func genCertType(g *hx.Gen, out *hx.Out) {
 	}
 	for _, t := range otherJSON {
 		emit(t, crits[g.Intn(len(crits))], []string{"p"}, false)
+	}
+	for _, fl := range []int{0, 1, 2, 8} {
+		for _, t := range nearTexts(members(genKid(g, fl, 1, 0, 1))) {
+			emit(t, crits[g.Intn(len(crits))], []string{"p"}, false)
+		}
 	}
 }
